@@ -671,6 +671,45 @@ fn midx_chunks(b: &[u8]) -> BTreeMap<[u8; 4], Vec<u8>> {
     m
 }
 
+/// `midxw <packs> {<mtime> <n> <entries>}*`: the bytes `write_from_index_paths` produces for these packs (index files
+/// named pack-0000.idx, …), without the trailing checksum — compared byte for byte with the model's layout
+fn exec_midxw(ctx: &mut Ctx, a: &[&str]) -> Option<String> {
+    let (packs, at) = parse_packs(a)?;
+    if at != a.len() {
+        return None;
+    }
+    let dir = ctx.fresh("midxw");
+    std::fs::create_dir_all(&dir).ok()?;
+    let mut paths = Vec::new();
+    for (k, p) in packs.iter().enumerate() {
+        let mut sorted = p.entries.clone();
+        sorted.sort_by(|x, y| x.id.cmp(&y.id));
+        let path = dir.join(format!("pack-{k:04}.idx"));
+        std::fs::write(&path, synth_v2(&sorted)).ok()?;
+        let f = std::fs::File::options().write(true).open(&path).ok()?;
+        f.set_modified(std::time::UNIX_EPOCH + std::time::Duration::from_secs(p.mtime)).ok()?;
+        paths.push(path);
+    }
+    let written = catch(|| {
+        let mut out = Vec::new();
+        multi_index::File::write_from_index_paths(
+            paths.clone(),
+            &mut out,
+            &mut gix_features::progress::Discard,
+            &AtomicBool::new(false),
+            multi_index::write::Options { object_hash: gix_hash::Kind::Sha1 },
+        )
+        .map(|_| out)
+        .map_err(|e| e.to_string())
+    });
+    let _ = std::fs::remove_dir_all(&dir);
+    Some(match written {
+        Err(_) => "panic".into(),
+        Ok(Err(_)) => "write-error".into(),
+        Ok(Ok(b)) => hex(&b[..b.len().saturating_sub(20)]),
+    })
+}
+
 fn exec_midx(rep: &mut Report, ctx: &mut Ctx, a: &[&str], op: &str) -> Option<String> {
     let (packs, at) = parse_packs(a)?;
     if a.get(at) != Some(&"|") {
@@ -978,6 +1017,7 @@ fn exec(rep: &mut Report, ctx: &mut Ctx, op: &str) {
         "raw" => exec_raw(rep, ctx, &a, op),
         "midx" => exec_midx(rep, ctx, &a, op),
         "midxraw" => exec_midxraw(rep, ctx, &a, op),
+        "midxw" => exec_midxw(ctx, &a),
         _ => None,
     };
     match obs {
@@ -1511,6 +1551,9 @@ fn main() {
         ] {
             rep.bucket("midx:empty");
             exec(&mut rep, &mut ctx, &op);
+            if let Some((packs_part, _)) = op.split_once(" | ") {
+                exec(&mut rep, &mut ctx, &packs_part.replacen("midx", "midxw", 1));
+            }
         }
         let a: Id = [0xab; 20];
         let mut b = a;
@@ -1530,6 +1573,9 @@ fn main() {
             );
             rep.bucket("midx:corpus-duplicates");
             exec(&mut rep, &mut ctx, &op);
+            if let Some((packs_part, _)) = op.split_once(" | ") {
+                exec(&mut rep, &mut ctx, &packs_part.replacen("midx", "midxw", 1));
+            }
         }
     }
 
@@ -1561,6 +1607,13 @@ fn main() {
             _ => {
                 let op = gen_midx_op(&mut r, !args.thorough || i % 4 != 0, &mut rep);
                 exec(&mut rep, &mut ctx, &op);
+                // the writer's bytes against the model's byte layout
+                if op.len() < 30_000 {
+                    if let Some((packs_part, _)) = op.split_once(" | ") {
+                        rep.bucket("midxw");
+                        exec(&mut rep, &mut ctx, &packs_part.replacen("midx", "midxw", 1));
+                    }
+                }
                 // the same file, and damaged versions of it, through the byte-level model
                 if let Some((bytes, qs)) = ctx.last_midx.take() {
                     if bytes.len() < 40_000 {
